@@ -15,39 +15,21 @@ META = {
         "category": "proof",
         "text": "Kernel-checked: (1) lockset_sound — for every access table satisfying raceFree and every well-formed execution of the abstract semantics that respects the table, "
                 "any two conflicting accesses of different goroutines are ordered by happens-before (all executions, all tables, Mutex and RWMutex modes); (2) repo_race_free — "
-                "the table regenerated from the working tree satisfies raceFree (evaluation over ~900 rows / 190 fields). PARTIAL by nature: the theorem is about the extracted "
+                "the table regenerated from the working tree satisfies raceFree (evaluation over ~1300 rows / 270 fields incl. package-level variables, protocol pages, codec objects and followed pointer aliases). PARTIAL by nature: the theorem is about the extracted "
                 "abstraction; that real executions respect the table (extractor soundness, field-identity aliasing, annotated hand-offs) is an assumption, sampled by race-detector runs.",
         "design_ref": "DESIGN.md §7 C10",
     },
-    "level_note": "Weakest fit of the twenty (stated in DESIGN.md): proof over an extracted abstraction + race-detector sampling. Trusted/assumed: the go/types extractor "
-                  "(syntactic must-locksets; interface and function-value calls not followed; pointer aliasing such as &c.rbuf handed to messageSetReader not followed; locks and "
-                  "fields identified by Type.field, not by instance); the reviewed annotations in go/extract/access_annotations.json (closure locks of Conn.do, the read-lock hand-off "
-                  "waitResponse→Batch, ownership tokens for writeBatch / Writer.writerStats / Reader.cancel, SASL-before-publication, atomic stats types); the Go memory model as "
-                  "abstracted in Model/Lockset.lean (channels, Once, WaitGroup only as tokens); the race detector only sees the schedules that happened. protocol/buffer.go page "
-                  "ref-counts and the per-call codec reader/writer objects are outside the table (exercised by the detector runs only).",
+    "level_note": "Weakest fit of the twenty (stated in DESIGN.md): proof over an extracted abstraction + race-detector sampling. Trusted/assumed (docs/notes/C10.md, "
+                  "section `What Respects assumes`, U1-U8, with regression patches seeded/C10-unsound-*): the go/types extractor (syntactic must-locksets; interface calls "
+                  "by class-hierarchy edges; function values and go-targets from the empty lockset; pointer aliases followed only from &x.f call arguments into struct fields; "
+                  "locks and fields identified by Type.field, not by instance; unlocks through unnamed *sync.Mutex locals ignored); the reviewed annotations in "
+                  "go/extract/accesses/access_annotations.json (closure locks of Conn.do, the read-lock hand-off waitResponse→Batch incl. the data-dependent guard batch.err, ownership "
+                  "tokens for writeBatch / Writer.writerStats / Reader.cancel / protocol pages / per-call codec objects, SASL-before-publication, atomic stats types); the Go "
+                  "memory model as abstracted in Model/Lockset.lean (channels, Once, WaitGroup, Pool only as tokens); the race detector only sees the schedules that happened.",
 }
 
 MODULE = "KafkaVerif.Props.C10"
-SCENARIOS = ["balancers", "writer", "codecs", "readerfront", "reader", "readergroup", "conn", "transport"]
-
-# exported methods reached by a driver operation besides the one it is named after
-OP_ALSO = {
-    "gzip.roundtrip": ["compress/gzip.Codec.NewReader", "compress/gzip.Codec.NewWriter", "compress/gzip.Codec.Name"],
-    "snappy.roundtrip": ["compress/snappy.Codec.NewReader", "compress/snappy.Codec.NewWriter", "compress/snappy.Codec.Name"],
-    "lz4.roundtrip": ["compress/lz4.Codec.NewReader", "compress/lz4.Codec.NewWriter", "compress/lz4.Codec.Name"],
-    "zstd.roundtrip": ["compress/zstd.Codec.NewReader", "compress/zstd.Codec.NewWriter", "compress/zstd.Codec.Name"],
-    "Batch.Offset": ["Batch.HighWaterMark", "Batch.Throttle", "Batch.Partition"],
-    "Conn.Broker": ["Conn.LocalAddr", "Conn.RemoteAddr"],
-    "Conn.Read": ["Conn.ReadBatch", "Conn.ReadBatchWith"],
-    "Conn.ReadMessage": ["Conn.ReadBatch", "Conn.ReadBatchWith"],
-    "Batch.ReadMessage": ["Conn.ReadBatch", "Conn.ReadBatchWith"],
-    "Conn.ReadOffsets": ["Conn.ReadFirstOffset", "Conn.ReadLastOffset"],
-    "Conn.WriteMessages": ["Conn.WriteCompressedMessages"],
-    "Client.Produce": ["Transport.RoundTrip"], "Client.Fetch": ["Transport.RoundTrip"], "Client.Metadata": ["Transport.RoundTrip"],
-    "Client.ListOffsets": ["Transport.RoundTrip"],
-    "Reader.FetchMessage+CommitMessages": ["Reader.FetchMessage", "Reader.CommitMessages"],
-    "Reader.Stats": ["Reader.Offset", "Reader.Lag", "Reader.SetOffset", "Reader.Config"],
-}
+SCENARIOS = ["balancers", "writer", "codecs", "readerfront", "reader", "readergroup", "readerrebalance", "conn", "transport", "clientapis"]
 
 HDR = re.compile(r"^(Read|Write|Previous read|Previous write|Atomic read|Atomic write|Previous atomic read|Previous atomic write) at 0x[0-9a-f]+ by (?:goroutine \d+|main goroutine):")
 FRAME = re.compile(r"^\s+(\S+):(\d+)(?: \+0x[0-9a-f]+)?$")
@@ -107,10 +89,10 @@ def run(ctx):
     ctx.assumptions += [
         "real executions respect the extracted table: every access to a field of a tracked type is one of the tabulated sites and happens while the recorded locks are held (extractor soundness; sampled by the race detector)",
         "aliasing by field identity: a lock / field is identified by Type.field; holding Type.mutex of one instance while touching another instance's field is not distinguished",
-        "calls through interfaces and function values, and pointers to fields handed elsewhere (e.g. &c.rbuf inside messageSetReader), are not followed by the extractor",
-        "hand-offs listed in go/extract/access_annotations.json (closure_locks, call_acquires, tokens, ctor_funcs, atomic_types) hold as justified there; tokens stand for channel/Once/WaitGroup ordering",
+        "interface calls are approximated by edges to every implementing method, function values start from the empty lockset; pointers to fields are followed only from &x.f call arguments into struct fields (readerStack.reader → Conn.rbuf); escapes through locals/returns/maps/channels are not (notes U2)",
+        "hand-offs listed in go/extract/accesses/access_annotations.json (closure_locks, call_acquires, tokens, ctor_funcs, atomic_types) hold as justified there; tokens stand for channel/Once/WaitGroup ordering",
         "Go memory model as abstracted in Model/Lockset.lean: program order, unlock→lock (RUnlock↛RLock), go statement; atomics are race free among themselves",
-        "race-detector validation covers only the schedules that occurred in the generated programs (quick: 8 scenarios × 8 rounds; thorough: × 500 rounds × 4 seeds, GOMAXPROCS 2/4/8/16)",
+        "race-detector validation covers only the schedules that occurred in the generated programs (quick: 10 scenarios × 8 rounds; thorough: × 500 rounds × 4 seeds, GOMAXPROCS 2/4/8/16)",
     ]
     broken = []
     # ---- 1. regenerate the table
@@ -168,7 +150,7 @@ def run(ctx):
 
         with concurrent.futures.ThreadPoolExecutor(max_workers=6 if thorough else 4) as ex:
             results = list(ex.map(one, jobs))
-        methods = {}
+        methods, opmap, round_ops = {}, {}, []
         for (s, sd, n, gmp), rc, out, err in results:
             reps = parse_reports(err)
             done = [l for l in out.split("\n") if l.startswith("done ")]
@@ -177,8 +159,15 @@ def run(ctx):
             for l in out.split("\n"):
                 if l.startswith("round "):
                     lines.append("%s\tran" % l)
-                    for m in l.split("ops=", 1)[1].split(","):
+                    ops_of_round = l.split("ops=", 1)[1].split(",")
+                    round_ops.append((s, set(ops_of_round)))
+                    for m in ops_of_round:
                         methods[m] = methods.get(m, 0) + 1
+                elif l.startswith("opmap "):
+                    _, o, ms = l.split(" ", 2)
+                    opmap[o] = ms.split(",")
+                elif l.startswith("panic ") or l.startswith("skipped "):
+                    ctx.notes.append("driver observation: " + l)
                 elif l.startswith("stuck ") or l.startswith("codec-mismatch"):
                     ctx.notes.append("driver observation: " + l)
             scen_info["%s seed=%d" % (s, sd)] = {"rounds": n, "reports": len(reps), "rc": rc,
@@ -204,12 +193,25 @@ def run(ctx):
                 seen.add(r["key"])
                 lines.append("%s\treported" % r["key"])
         ctx.coverage["methods_invoked"] = dict(sorted(methods.items()))
-        direct = {m.split("/")[0] for m in methods}
-        for m in list(direct):
-            direct |= set(OP_ALSO.get(m, []))
-        # methods reached indirectly by the scenarios (Writer→Client/Transport.RoundTrip, codecs through compress.Codec, Reader→Conn/Batch)
-        ctx.coverage["exported_methods_of_tracked_types"] = len(table.get("exported_methods") or [])
-        ctx.coverage["exported_methods_not_reached_by_driver_ops"] = sorted(set(table.get("exported_methods") or []) - direct)
+        # per-method reach table: in how many generated concurrent programs (rounds) was the exported method
+        # invoked — by an operation named after it or by one the driver declares (`opmap`) to call it
+        exported = table.get("exported_methods") or []
+        reach = {m: {"programs": 0, "scenarios": set()} for m in exported}
+        for scen, opset in round_ops:
+            hit = set()
+            for o in opset:
+                hit.add(o)
+                hit |= set(opmap.get(o, []))
+            for m in hit:
+                if m in reach:
+                    reach[m]["programs"] += 1
+                    reach[m]["scenarios"].add(scen)
+        ctx.coverage["exported_methods_of_tracked_types"] = len(exported)
+        ctx.coverage["method_reach"] = {m: {"programs": v["programs"], "scenarios": sorted(v["scenarios"])} for m, v in sorted(reach.items())}
+        unreached = sorted(m for m, v in reach.items() if v["programs"] == 0)
+        ctx.coverage["exported_methods_not_reached_by_driver_ops"] = unreached
+        if unreached:
+            ctx.notes.append("exported methods of tracked types not invoked by any generated program in this run: " + ", ".join(unreached))
     dis = ctx.correspond(lines, orc, "race detector reports ↔ Gen/Accesses.lean (lockset table)",
                          nontrivial=lambda op, impl: op.startswith("round ")) if orc and lines else []
     # ---- coverage
@@ -222,7 +224,10 @@ def run(ctx):
                              "atomic_rows": sum(1 for r in table["rows"] if r["atomic"]),
                              "rows_with_lock": sum(1 for r in table["rows"] if r["locks"]),
                              "annotations_used": table["annotations_used"], "unresolved_lock_ops": table["unresolved"],
-                             "excluded_rows": len(table["excluded"]), "unprotected_pairs": len(table["racy"])}
+                             "excluded_rows": len(table["excluded"]), "unprotected_pairs": len(table["racy"]),
+                             "global_variables": sum(1 for f in {r["field"] for r in table["rows"]} if f.startswith("global:")),
+                             "pointer_aliases_followed": table.get("pointer_aliases") or [],
+                             "interface_call_edges_added": table.get("interface_call_edges", 0)}
     ctx.coverage["scenarios"] = scen_info
     # ---- decide
     recorded = 0
